@@ -577,8 +577,37 @@ func run(r *hk.Run) {
 		}
 		e.doZuc("corpus", k, iv, 4)
 	}
+	// ... and key / iv pairs for which the feedback of working-stage clock n is 0 modulo 2^31-1
+	// (n = 0 is the clock whose output is discarded); found by a random search over ~2^31 clocks
+	for _, kv := range []struct {
+		k, iv string
+		n     int
+	}{
+		{"ffeeb90682dc89e502d591718e117ce2", "1f63f6de6d2210c56be40c339ffbb2b8", 83},
+		{"3a5a595c064efa7c95d6e6f4ad098345", "cc88b63d110b2a070b185df846debb10", 185},
+		{"cabc566589ecd978b38f5d983dcc8d71", "288cb043057a00c5c73ac8ce1958129a", 310},
+	} {
+		k, iv := unhex(kv.k), unhex(kv.iv)
+		z := &refState{}
+		for i := 0; i < 16; i++ {
+			z.s[i] = uint64(k[i])<<23 | refD[i]<<8 | uint64(iv[i])
+		}
+		for i := 0; i < 32; i++ {
+			w, _ := z.brF()
+			z.shift(nz((z.feedback() + uint64(w>>1)) % p31))
+		}
+		for i := 0; i < kv.n; i++ {
+			z.brF()
+			z.shift(nz(z.feedback()))
+		}
+		z.brF()
+		if z.feedback() == 0 {
+			zeroFeedback++
+		}
+		e.doZuc("corpus", k, iv, uint32(kv.n+20))
+	}
 	r.Extra["zero_feedback_witnesses"] = zeroFeedback
-	if zeroFeedback != 4 {
+	if zeroFeedback != 7 {
 		e.fail("harness", "stale-corpus", map[string]interface{}{"witnesses": zeroFeedback}, "the zero-feedback corpus no longer hits s16 = 0")
 	}
 	e.doNea3("corpus", key16(unhex("173d14ba5003731d7a60049470f00a29")), 0x66035492, 0xf, 0,
@@ -668,7 +697,7 @@ func run(r *hk.Run) {
 	}
 
 	// (3) structured random
-	n3 := r.N(1100, 14000)
+	n3 := r.N(1800, 20000)
 	maxOct := r.N(48, 400)
 	for j := 0; j < n3; j++ {
 		key := e.key(3 + rng.Intn(6))
